@@ -39,7 +39,7 @@ LEVEL_NOTE = "Trusts the step observer for the live state of the sub-project tas
 UNITS_MIN = [1, 2, 3, 5, 10, 15, 30, 60, 1440]
 CFG_SUB = gen.Cfg(facilities=False, max_tasks=4, max_workers=3, max_time=[25], abs_max=30, p_auto=6,
                   work_pool=[0.5, 1.0, 1.0, 2.0, 3.0], progress=False)
-CFG_PARENT = gen.Cfg(facilities=False, min_tasks=2, max_tasks=5, max_workers=3, max_time=[40], abs_max=25, p_auto=8,
+CFG_PARENT = gen.Cfg(servable=3, facilities=False, min_tasks=2, max_tasks=5, max_workers=3, max_time=[40], abs_max=25, p_auto=8,
                      work_pool=[0.0, 0.5, 1.0, 2.0, 3.0], kinds=[0, 0, 1, 2, 3])
 
 
